@@ -16,7 +16,7 @@ def ev_dec(uni, gname, b):
     ok, e = dec_result(uni.group(gname), b)
     out = {"ok": ok}
     if ok:
-        out["enc"] = hx(e.to_bytes())
+        out["enc"] = _hexor(e.to_bytes)
         out["cls"] = type(e).__name__
     return {"op": "g_dec", "grp": gname, "b": hx(b), "out": out}
 
@@ -46,7 +46,7 @@ def ev_dec_table(uni, gname, d):
         ok, e = dec_result(G, b)
         oks.append(1 if ok else 0)
         if ok:
-            encs.append(hx(e.to_bytes()))
+            encs.append(_hexor(e.to_bytes))
     return {"op": "g_dec_table", "grp": gname, "d": d, "oks": oks, "encs": encs, "w": max(1, len(oks) // 40)}
 
 
@@ -304,7 +304,12 @@ def ev_arb(uni, gname, seed):
 def ev_n2b_table(maxval):
     sp = load_repo()
     u = sp.util
-    outs = [u.number_to_bytes(n, maxval) for n in range(maxval + 1)]
+    def enc(n):
+        try:
+            return u.number_to_bytes(n, maxval)
+        except Exception:               # recorded as an impossible encoding: the specification rejects it
+            return b"\xee" * 9
+    outs = [enc(n) for n in range(maxval + 1)]
     try:
         u.number_to_bytes(maxval + 1, maxval)
         over = ""
@@ -327,21 +332,34 @@ def ev_n2b(num, maxval):
 
 def ev_s_codec(uni, gname, k):
     G = uni.group(gname)
-    enc = G.scalar_to_bytes(k)
-    return {"op": "s_codec", "grp": gname, "k": numhex(k), "enc": hx(enc), "dec": numhex(G.bytes_to_scalar(enc))}
+    try:
+        enc = G.scalar_to_bytes(k)
+        dec = numhex(G.bytes_to_scalar(enc))
+        enc = hx(enc)
+    except Exception as e:              # recorded, so that the specification gives the verdict
+        enc, dec = "", "ff" * 80
+        return {"op": "s_codec", "grp": gname, "k": numhex(k), "enc": enc, "dec": dec, "raised": type(e).__name__}
+    return {"op": "s_codec", "grp": gname, "k": numhex(k), "enc": enc, "dec": dec}
+
+
+def _hexor(f):
+    try:
+        return hx(f())
+    except Exception:                   # a raising call is recorded as an empty result
+        return ""
 
 
 def ev_finalize(idA, idB, X, Y, K, pw):
     sp = load_repo()
     return {"op": "finalize", "idA": hx(idA), "idB": hx(idB), "X": hx(X), "Y": hx(Y), "K": hx(K), "pw": hx(pw),
-            "out": hx(sp.spake2.finalize_SPAKE2(idA, idB, X, Y, K, pw))}
+            "out": _hexor(lambda: sp.spake2.finalize_SPAKE2(idA, idB, X, Y, K, pw))}
 
 
 def ev_finalize_sym(idS, m1, m2, K, pw):
     sp = load_repo()
     f = sp.spake2.finalize_SPAKE2_symmetric
     return {"op": "finalize_sym", "idS": hx(idS), "m1": hx(m1), "m2": hx(m2), "K": hx(K), "pw": hx(pw),
-            "out": hx(f(idS, m1, m2, K, pw)), "swapped": hx(f(idS, m2, m1, K, pw))}
+            "out": _hexor(lambda: f(idS, m1, m2, K, pw)), "swapped": _hexor(lambda: f(idS, m2, m1, K, pw))}
 
 
 def ev_params_sound(uni, psname, gname):
